@@ -118,9 +118,16 @@ _HASH = z3.Function("py_hash", z3.IntSort(), z3.IntSort(), z3.IntSort())
 
 
 def sx_hash(x):
-    if type(x) is tuple and len(x) == 2 and has_sym(x) and all(core._num(i) is not None for i in x):
-        # uninterpreted (assumed injective on the sizes compared -- checked by the harness)
-        return SymInt(_HASH(core.term(x[0]), core.term(x[1])))
+    if _active() and isinstance(x, tuple) and len(x) == 2 and all(core._num(i) is not None for i in x):
+        # hash of a size tuple: an uninterpreted function, injective on the pairs hashed on this path
+        # (assumption recorded by the harnesses that rely on it)
+        E = core.eng()
+        a, b = core.term(x[0]), core.term(x[1])
+        apps = E.fl_cache.setdefault("hash_apps", [])
+        for c, d in apps:
+            E._add(z3.Implies(_HASH(a, b) == _HASH(c, d), z3.And(a == c, b == d)))
+        apps.append((a, b))
+        return SymInt(_HASH(a, b))
     return hash(x)
 
 
